@@ -1,3 +1,4 @@
+import HttpcoreModel.Props.Life
 import HttpcoreModel.Props.C02
 import HttpcoreModel.Props.C02Chunked
 import HttpcoreModel.Props.C05
